@@ -30,6 +30,10 @@ def sat_records(rows, order=("So", "Sw", "Sg")):
     return np.array([tuple(r[pos[f]] for f in order) for r in rows], dtype=[(f, "f8") for f in order])
 
 
+# the documented order of the fields of RelPermParams (its docstring's parameter list)
+DOC_ORDER = ["n_o", "n_w", "n_g", "S_or", "S_wc", "S_gc", "k_ro_max", "k_rw_max", "k_rg_max"]
+
+
 def run(ctx):
     from bluebonnet.flow.flowproperties import RelPermParams, relative_permeabilities, relative_permeabilities_twophase
     core.coq_phase(ctx, GEN, PROPS)
@@ -43,7 +47,10 @@ def run(ctx):
 
     for k in range(n):
         par = admissible(rng, edge=k % 3 == 0)
-        P = RelPermParams(**par)
+        # the record is built by keyword, positionally in the documented order of its nine fields, or from a sequence in that order
+        how_built = ["keywords", "positional, documented order", "_make from a list in the documented order"][k % 3]
+        P = RelPermParams(**par) if k % 3 == 0 else RelPermParams(*[par[q] for q in DOC_ORDER]) if k % 3 == 1 else RelPermParams._make([par[q] for q in DOC_ORDER])
+        par = dict(par, record_built=how_built)
         rows = []
         for _ in range(8):
             x = rng.dirichlet([0.6, 0.6, 0.6])
@@ -85,7 +92,7 @@ def run(ctx):
         if k % 10 == 0:
             for name, value in (("n_o", 6.5), ("n_w", 0.5), ("n_g", 7.0), ("S_or", -0.1), ("S_wc", 1.2), ("S_gc", -1e-9),
                                 ("k_ro_max", 1.1), ("k_rw_max", -0.2), ("k_rg_max", 1 + 1e-9)):
-                q = dict(par)
+                q = {kk_: vv_ for kk_, vv_ in par.items() if kk_ != "record_built"}
                 q[name] = value
                 ev += 1
                 try:
